@@ -131,6 +131,9 @@ ApplyLive(st, op, a) ==
       [] op \in {"reserve", "reserve_exact", "shrink_to_fit"} -> Same(st, Unit)
       [] op = "fill"       -> Upd(st, Fill(g, a.v), Unit)
       [] op = "set"        -> IF InRange(g, a.c, a.r) THEN Upd(st, SetCell(g, a.c, a.r, a.v), Unit) ELSE Rejected(st)
+      \* the same write through the flat row-major slice: data_mut() (a.via = 0) or AsMut<[T]> (a.via = 1); cell i of the
+      \* slice is cell (i % c, i \div c) of the grid - this is what ties the contiguous layout to the coordinates for writers
+      [] op = "set_flat"   -> IF ~IsBig(a.i) /\ a.i < c * r THEN Upd(st, SetCell(g, a.i % c, a.i \div c, a.v), Unit) ELSE Rejected(st)
       [] op = "swap"       -> IF InRange(g, a.c1, a.r1) /\ InRange(g, a.c2, a.r2)
                               THEN Upd(st, SwapCells(g, <<a.c1, a.r1>>, <<a.c2, a.r2>>), Unit) ELSE Rejected(st)
       [] op = "swap_rows"  -> IF a.r1 < r /\ a.r2 < r THEN Upd(st, SwapRows(g, a.r1, a.r2), Unit) ELSE Rejected(st)
@@ -171,7 +174,7 @@ ApplyLive(st, op, a) ==
       [] op = "leak_borrow" -> Same(st, Unit)
 
 LiveOps == {"insert_row", "push_row", "insert_col", "push_col", "remove_row", "pop_row", "remove_col", "pop_col",
-            "clear", "swap_dimensions", "reserve", "reserve_exact", "shrink_to_fit", "fill", "set", "swap",
+            "clear", "swap_dimensions", "reserve", "reserve_exact", "shrink_to_fit", "fill", "set", "set_flat", "swap",
             "swap_rows", "swap_cols", "translate", "flip_rows", "flip_cols", "sort_by_row", "sort_by_col",
             "sort_by_row_key", "sort_row_ord", "sort_by_col_key", "sort_col_ord", "clone_from_slice", "clone_from_toodee",
             "clone", "clone_from", "from_view", "into_vec", "into_box", "into_iter", "drop", "leak_borrow"}
